@@ -155,7 +155,7 @@ def sync_order(ctx):
     _require([table[2]], [hits[2]], "Sync::sync")   # Meta::write anchors; the waits / post-meta rows are what is checked
     flags = ["bitbox_waited", "beatree_waited", "meta_written"]
     qs = [PQuery("Sync::sync: wait_pre_meta(bitbox, beatree) -> Meta::write -> post_meta", cfg, ops, flags, {},
-                 scenario="c04_commit_order", key="Sync::sync:order")]
+                 scenario=["c04_commit_order", "c17_rollback_prune_order"], key="Sync::sync:order")]
     ok = {bb: [("bad", None)] for bb in _ok_blocks(cfg)}
     qs.append(PQuery("Sync::sync: the success return is reachable", cfg, ok, [], {}, expect="sat"))
     # the three post-meta calls are all on the success path: removing Meta::write's `set` must break the order
@@ -323,7 +323,7 @@ def no_swallow(ctx):
         if defs == 0:
             raise Unmatched("no fallible value found in " + nm)
         qs.append(PMulti("%s: no fallible value is dropped uninspected" % nm, cfg, ops, flags, {},
-                         scenario="c14_ht_write_fails" if nm in ("write_ht", "Sync::sync", "bitbox::SyncController::post_meta") else None,
+                         scenario=["c14_ht_write_fails", "c14_fault_sweep"] if nm in ("write_ht", "Sync::sync", "bitbox::SyncController::post_meta") else None,
                          key="%s:swallowed result" % nm))
         enc.add("%s @ nomt/src/%s" % (nm, fh))
     # vacuity / sensitivity: in write_ht a completion is received on some path
